@@ -7,6 +7,7 @@ import (
 	"hash/fnv"
 	"os"
 	"sort"
+	"strings"
 	"time"
 
 	"go.uber.org/cff/zzverif/vs"
@@ -29,6 +30,7 @@ type Violation struct {
 	Decisions []int    `json:"decisions"`
 	Trace     []string `json:"trace,omitempty"`
 	Visible   string   `json:"visible"`
+	Race      bool     `json:"race,omitempty"`
 }
 
 // Result of one task.
@@ -43,6 +45,29 @@ type Result struct {
 	Sample     *Violation  `json:"sample,omitempty"`
 	MaxSpawned int         `json:"max_spawned"`
 	Calls      int         `json:"calls"` // max number of user-function invocations seen in one execution
+}
+
+// raceLogSize returns the size of this process's race-detector log
+// (GORACE=log_path=<prefix> makes the runtime write <prefix>.<pid>).
+func raceLogSize() int64 {
+	pfx := os.Getenv("VERIF_RACE_LOG")
+	if pfx == "" {
+		return 0
+	}
+	st, err := os.Stat(fmt.Sprintf("%s.%d", pfx, os.Getpid()))
+	if err != nil {
+		return 0
+	}
+	return st.Size()
+}
+
+func raceLogTail(from int64) string {
+	pfx := os.Getenv("VERIF_RACE_LOG")
+	b, err := os.ReadFile(fmt.Sprintf("%s.%d", pfx, os.Getpid()))
+	if err != nil || int64(len(b)) <= from {
+		return ""
+	}
+	return string(b[from:])
 }
 
 func runTask(t *Task) *Result {
@@ -60,12 +85,16 @@ func runTask(t *Task) *Result {
 		b()
 	}
 	if t.Replay != nil {
+		before := raceLogSize()
 		ex := vs.Replay(sc.Config(), body, t.Replay)
 		if ex.Term == vs.TermToolError {
 			res.ToolErr = ex.ToolErr
 			return res
 		}
 		vis := Visible(cur, ex)
+		if vs.RaceBuild && raceLogSize() > before {
+			res.Violations = append(res.Violations, Violation{Prop: "C12", Msg: "the Go race detector reports a data race in this execution:\n" + raceSummary(raceLogTail(before)), Decisions: t.Replay, Trace: ex.Trace, Visible: vis})
+		}
 		for _, f := range Check(cur, ex) {
 			res.Violations = append(res.Violations, Violation{Prop: f.Prop, Msg: f.Msg, Decisions: t.Replay, Trace: ex.Trace, Visible: vis})
 		}
@@ -79,6 +108,18 @@ func runTask(t *Task) *Result {
 	opt := vs.Options{Strategy: vs.SleepSets, PreemptBound: -1, Cfg: sc.Config(), MaxExecs: t.MaxExecs}
 	if t.DeadlineS > 0 {
 		opt.Deadline = start.Add(time.Duration(t.DeadlineS) * time.Second)
+	}
+	raceSeen := raceLogSize()
+	if vs.RaceBuild {
+		opt.AfterExec = func(ex *vs.Exec) bool {
+			if n := raceLogSize(); n > raceSeen {
+				res.Violations = append(res.Violations, Violation{Prop: "C12", Msg: "the Go race detector reports a data race in this execution:\n" + raceSummary(raceLogTail(raceSeen)),
+					Decisions: append([]int{}, ex.Decisions...), Visible: Visible(cur, ex), Race: true})
+				raceSeen = n
+				return true
+			}
+			return false
+		}
 	}
 	st, terr := vs.Explore(opt, body, func(ex *vs.Exec) bool {
 		vis := Visible(cur, ex)
@@ -116,6 +157,11 @@ func runTask(t *Task) *Result {
 	// confirm violations: five replays with identical observations
 	for vi := range res.Violations {
 		v := &res.Violations[vi]
+		if v.Race {
+			// the detector reports a pair of stacks once per process: race
+			// findings are confirmed by the orchestrator in a fresh process
+			continue
+		}
 		for i := 0; i < 5; i++ {
 			ex := vs.Replay(sc.Config(), body, v.Decisions)
 			if ex.Term == vs.TermToolError {
@@ -203,4 +249,25 @@ func Main() {
 	if err := os.WriteFile(*outF, ob, 0o644); err != nil {
 		mc.ToolError("driver: %v", err)
 	}
+}
+
+// raceSummary keeps the informative lines of a race report.
+func raceSummary(rep string) string {
+	var keep []string
+	n := 0
+	for _, l := range strings.Split(rep, "\n") {
+		t := strings.TrimSpace(l)
+		if t == "" || strings.HasPrefix(t, "==================") {
+			continue
+		}
+		if strings.Contains(t, "/zzverif/vs.") || strings.Contains(t, "engine/vs/") || strings.HasPrefix(t, "runtime.") {
+			continue
+		}
+		keep = append(keep, "    "+t)
+		n++
+		if n >= 24 {
+			break
+		}
+	}
+	return strings.Join(keep, "\n")
 }
